@@ -17,7 +17,7 @@ def cdel(d):
     return "(%s, %s, %s, %s)" % (d[0], d[1], vf.cbool(d[2]), vf.cstr(d[3]))
 
 
-def scenario(seed, snap, duration, nresets, suspending=False, fixed_plan=None):
+def scenario(seed, snap, duration, nresets, suspending=False, fixed_plan=None, rferr_burst=None):
     import random
     rng = random.Random(seed)
     fullstack.reset_config()
@@ -79,6 +79,14 @@ def scenario(seed, snap, duration, nresets, suspending=False, fixed_plan=None):
                 st.peer.spontaneous("DisplayedTempG", 60.0 + (v % 40))
                 if rng.random() < 0.2:
                     loop.jump(rng.choice([0.2, 0.7, 2.5]))          # event-loop stall: the clock moves while nothing runs
+        async def burst():
+            # the home module reports a radio error over and over within a few seconds (more than the client tolerates on one connection)
+            await asyncio.sleep(rferr_burst[0])
+            for _ in range(rferr_burst[1]):
+                st.inject_rferr()
+                await asyncio.sleep(0.05)
+        if rferr_burst:
+            loop.create_task(burst())
         lt = loop.create_task(spa_life())
         rt, wt = loop.create_task(resetter()), loop.create_task(watcher())
         await asyncio.sleep(duration)
@@ -116,6 +124,13 @@ def run(ctx):
     # fixed scripts next to the random ones: the keep-alive pings of a fresh connection are lost from the start (everything else passes, the
     # manager reaches CONNECTED without a single answered ping), then the spa disappears altogether
     fixed = [[(0.0, w, "noping", 0), (w, w + 330.0, "blackout", 0)] for w in ((20.0, 45.0, 9.0) if ctx.thorough else (20.0,))]
+    # ... and a long RF-error period that starts before the handshake (every request of the handshake is answered with RFERR: dozens of
+    # error reports on one connection), then health
+    fixed += [[(0.0, w, "rferr", 0)] for w in ((520.0, 900.0) if ctx.thorough else (520.0,))]
+    # ... a radio outage in which even the pings are answered with RFERR, long enough for more than 50 error reports on ONE connection
+    fixed += [[(40.0, 40.0 + w, "rferr_all", 0)] for w in ((1700.0, 2600.0) if ctx.thorough else (1700.0,))]
+    # ... and a healthy network on which the home module reports 60 radio errors within three seconds (marked by an empty script)
+    fixed += [[(0.0, 0.0, "healthy", 0)]]
     for k in range(n + len(fixed)):
         snap = SNAPS[k % len(SNAPS)]
         seed = ctx.seed * 1000 + k
@@ -123,8 +138,9 @@ def run(ctx):
         if k < n:
             r = scenario(seed, snap, 300 if ctx.thorough and k % 3 == 0 else 160, nresets=rng_choice(k // 2), suspending=suspending)
         else:
-            r = scenario(seed, snap, fixed[k - n][-1][1] + 5.0, nresets=0, fixed_plan=fixed[k - n])
-            ctx.count("runs_connected_without_an_answered_ping_then_blackout")
+            burst_run = fixed[k - n][-1][1] == 0.0
+            r = scenario(seed, snap, 60.0 if burst_run else fixed[k - n][-1][1] + 5.0, nresets=0, fixed_plan=fixed[k - n], rferr_burst=(30.0, 60) if burst_run else None)
+            ctx.count("fixed_script_runs")
         ctx.count("runs_with_suspending_client_handler" if suspending else "runs_with_atomic_client_handler")
         visited = {s for (t, s) in r["states"]}
         m = {"seed": seed, "snapshot": snap, "healed_after_s": r["healed"], "final": r["state"], "visited": sorted(visited), "resets": r["resets"], "plan": r["plan"][:10],
